@@ -255,6 +255,8 @@ def point_case(rng, kind):
     fp = field_point(case["fields"])
     T0 = Fraction(rng.randint(10, 16), 8)
     v0 = Fraction(rng.choice([44, 50, 56, 58, 60] if kind == "det" else [10, 12, 16, 20, 26]), 64)
+    if kind in ("deflk", "detk"):      # several enlargements of the bracket are needed
+        v0 = Fraction(10 if kind == "deflk" else 60, 64)
     w0 = -float(T0) * pot.derivT(fp, float(T0))
     p0 = -pot.evaluate(fp, float(T0))
     g2 = 1.0 / (1.0 - float(v0) ** 2)
@@ -264,7 +266,11 @@ def point_case(rng, kind):
         c2 = Fraction(float(c2) * 0.8)
     Tp = Fraction(float(T0) * (1 + rng.choice([-1, 1]) * rng.uniform(0.03, 0.2)))
     Tm = Fraction(float(T0) * (1 + rng.choice([-1, 1]) * rng.uniform(0.03, 0.2)))
-    if kind == "det":
+    if kind == "deflk":
+        Tp = Fraction(float(T0) * rng.uniform(0.70, 0.78))
+    if kind == "detk":
+        Tm = Fraction(float(T0) * rng.uniform(1.45, 1.6))
+    if kind in ("det", "detk"):
         case["Tn"] = Tp + rng.choice([Fraction(0), Fraction(5, 10 ** 11), -Fraction(5, 10 ** 11)])
         case["Tn"] = Fraction(float(case["Tn"]))
     elif kind == "edge":      # just outside the 1e-10 window: still a deflagration
@@ -375,8 +381,8 @@ def stub_correspondence(ctx, proved):
             files.append(("straight_%d" % m, ctx.write("Cases/Straight_%d.v" % m, text),
                           jcase(case)))
     # decision path of findPlasmaProfilePoint
-    kinds = ["defl", "det", "edge", "noroot"]
-    want = ctx.n(8, 60)
+    kinds = ["defl", "det", "edge", "noroot", "deflk", "detk"]
+    want = ctx.n(9, 60)
     done, tries, paths = 0, 0, {}
     while done < want and tries < 20 * want:
         kind = kinds[tries % len(kinds)]
@@ -418,9 +424,9 @@ MODELS = {"xSM_BM1": None, "xSM_BM1_weak": 1077.5}
 _CACHE = {}
 
 
-def build_model(name, errTol=1e-6):
-    if (name, errTol) in _CACHE:
-        return _CACHE[(name, errTol)]
+def build_model(name):
+    if name in _CACHE:
+        return _CACHE[name]
     root = vlib.REPO
     if root not in sys.path:
         sys.path.insert(0, root)
@@ -451,9 +457,9 @@ def build_model(name, errTol=1e-6):
     boltzmann = WallGo.BoltzmannSolver(grid, basisM="Cardinal", basisN="Chebyshev")
     boltzmann.updateParticleList(model.outOfEquilibriumParticles)
     eom = WallGo.EOM(boltzmann, thermo, hydro, grid, 2, 0.0, (0.1, 100.0), (-10.0, 10.0),
-                     includeOffEq=True, errTol=errTol)
-    _CACHE[(name, errTol)] = (veff, thermo, hydro, grid, eom)
-    return _CACHE[(name, errTol)]
+                     includeOffEq=True)
+    _CACHE[name] = (veff, thermo, hydro, grid, eom)
+    return _CACHE[name]
 
 
 def dVdT(veff, fp, T, h=2e-2):
@@ -511,7 +517,8 @@ def run_profile(name, vw, widths, offsets, shape, seed, amp, errTol=1e-6):
     """one call of the real EOM.findPlasmaProfile + independent recomputation"""
     from WallGo.containers import BoltzmannDeltas, WallParams
     from WallGo.polynomial import Polynomial
-    veff, thermo, hydro, grid, eom = build_model(name, errTol)
+    veff, thermo, hydro, grid, eom = build_model(name)
+    eom.errTol = errTol                     # read by findPlasmaProfilePoint at call time
     c1, c2, Tp, Tm, vMid = hydro.findHydroBoundaries(vw)
     vp, vm, _, _ = hydro.findMatching(vw)
     out = dict(c1=c1, c2=c2, Tp=Tp, Tm=Tm, vMid=vMid, vp=vp, vm=vm, vJ=hydro.vJ)
@@ -579,8 +586,12 @@ def run_profile(name, vw, widths, offsets, shape, seed, amp, errTol=1e-6):
     return out
 
 
-TOL_CONS = 1e-5       # relative to |c1|, |c2|; the solver runs with errTol 1e-6
 TOL_ASYM = 1e-3
+
+
+def tol_cons(errTol):
+    """relative to |c1|, |c2|: the root is located to rtol = errTol/10"""
+    return 10 * errTol
 FINDING_KEY = "success-without-root"
 
 
@@ -589,10 +600,16 @@ def registered(ctx, key):
                for k in ctx.known.get("findings", []))
 
 
-def judge(ctx, name, vw, widths, offsets, shape, seed, amp, res, stats):
+def judge(ctx, name, vw, widths, offsets, shape, seed, amp, res, stats, errTol=1e-6):
     """evaluate the property on one profile; report failing inputs"""
     rep = dict(kind="profile", model=name, vw=vw, widths=widths, offsets=offsets,
-               moments=shape, seed=seed, amp=amp)
+               moments=shape, seed=seed, amp=amp, errTol=errTol)
+    TOL_CONS = tol_cons(errTol)
+    fails = {}
+
+    def fail(key, size, what, r):
+        if key not in fails or size > fails[key][0]:
+            fails[key] = (size, what, r)
     br = res["branch"]
     tag = "%s/%s/%s" % (name, br, shape)
     ctx.count("profile", rep, bucket=tag)
@@ -647,10 +664,10 @@ def judge(ctx, name, vw, widths, offsets, shape, seed, amp, res, stats):
                                dict(rep, k=d["k"]), key="branch-side:" + br)
         worst["r30"] = max(worst["r30"], abs(d["r30"]))
         if abs(d["r30"]) > TOL_CONS:
-            ctx.fail_input("T30 not conserved at grid point %d: residual %.2e |c1| "
+            fail("T30:" + d["path"], abs(d["r30"]), "T30 not conserved at grid point %d: residual %.2e |c1| "
                            "(T=%.6g v=%.6g, path %s) [%s vw=%g]" % (
                                d["k"], d["r30"], d["T"], d["v"], d["path"], tag, vw),
-                           dict(rep, k=d["k"]), key="T30:" + d["path"])
+                 dict(rep, k=d["k"]))
         if abs(d["r33"]) > TOL_CONS:
             if d["path"] == "early" and br == "hybrid" and shape != "none":
                 # success reported although the LHS has no root: the minimum is returned
@@ -658,16 +675,19 @@ def judge(ctx, name, vw, widths, offsets, shape, seed, amp, res, stats):
                                                             T=d["T"], v=d["v"],
                                                             fmin_rel=d["fmin_rel"]))
                 continue
-            ctx.fail_input("T33 not conserved at grid point %d: residual %.2e |c2| "
-                           "(T=%.6g v=%.6g, path %s) [%s vw=%g]" % (
-                               d["k"], d["r33"], d["T"], d["v"], d["path"], tag, vw),
-                           dict(rep, k=d["k"]), key="T33:" + d["path"])
+            fail("T33:" + d["path"], abs(d["r33"]),
+                 "T33 not conserved at grid point %d: residual %.2e |c2| "
+                 "(T=%.6g v=%.6g, path %s) [%s vw=%g]" % (
+                     d["k"], d["r33"], d["T"], d["v"], d["path"], tag, vw), dict(rep, k=d["k"]))
         else:
             worst["r33"] = max(worst["r33"], abs(d["r33"]))
-    if worst["r33"] > stats.get("worst33", 0.0):
+    for key, (size, what, r) in sorted(fails.items()):
+        ctx.fail_input(what, r, key=key)
+    if worst["r33"] > stats.get("worst33", 0.0) and errTol <= 1e-6:
         stats["worst33_where"] = (tag, vw, [(d["k"], d["path"], "%.1e" % d["r33"]) for d in res["points"] if abs(d["r33"]) > 0.3 * worst["r33"]][:6])
-    stats["worst30"] = max(stats.get("worst30", 0.0), worst["r30"])
-    stats["worst33"] = max(stats.get("worst33", 0.0), worst["r33"])
+    if errTol <= 1e-6:
+        stats["worst30"] = max(stats.get("worst30", 0.0), worst["r30"])
+        stats["worst33"] = max(stats.get("worst33", 0.0), worst["r33"])
     # asymptotes (index 0: deep behind the wall; last: far in front)
     if shape in ("none", "bump") and res["success"]:
         T, v = res["T"], res["v"]
@@ -727,6 +747,10 @@ def direct_validation(ctx):
                 ctx.count("profile_skipped_no_hydro", nontrivial=False)
                 break
             judge(ctx, name, vw, widths, offsets, shape, seed, amp, res, stats)
+            if shape == "none":
+                # the same equilibrium profile with the solver's DEFAULT tolerance
+                res3 = run_profile(name, vw, widths, offsets, shape, seed, amp, errTol=1e-3)
+                judge(ctx, name, vw, widths, offsets, shape, seed, amp, res3, stats, errTol=1e-3)
             if len(ctx.cov["samples"]) < 6 and shape == "bump":
                 ctx.sample(dict(model=name, vw=vw, branch=res["branch"],
                                 Tp_minus_Tn_rel=(res["Tp"] - TN) / TN,
@@ -827,7 +851,8 @@ def replay(rep):
     print(json.dumps({k: v for k, v in rep.items() if k not in ("T", "v")}, indent=1))
     if rep.get("kind") == "profile" or "model" in rep:
         res = run_profile(rep["model"], rep["vw"], rep["widths"], rep["offsets"],
-                          rep["moments"], rep["seed"], rep["amp"])
+                          rep["moments"], rep["seed"], rep["amp"], errTol=rep.get("errTol", 1e-6))
+        TOL_CONS = tol_cons(rep.get("errTol", 1e-6))
         print("branch", res["branch"], "success", res["success"], "T+ %.8g T- %.8g v+ %.8g v- %.8g"
               % (res["Tp"], res["Tm"], res["vp"], res["vm"]))
         for d in res["points"]:
